@@ -12,6 +12,9 @@ var (
 	ErrUnknownTreeId = errors.New("tree does not exist")
 	ErrTreeExists    = errors.New("tree already exists")
 	ErrUnknownChange = errors.New("change doesn't exist")
+	// ErrTreeDeleted is returned when a storage is being created for a tree id that already
+	// carries a deletion tombstone in the head storage
+	ErrTreeDeleted = errors.New("tree storage already deleted")
 )
 
 type TreeStorageCreatePayload struct {
